@@ -68,7 +68,8 @@ class Parser:
         self.builtins = builtins
         self.pos = 0
         assert tokens
-        self.eof = Token(TokenKind.EOI, "", -1, tokens[-1].grammar)
+        grammar = tokens[-1].grammar
+        self.eof = Token(TokenKind.EOI, "", len(grammar), grammar)
 
     def current(self) -> Token:
         try:
